@@ -25,6 +25,7 @@ def main():
         return None if x % 3 == 0 else x * 7 + 3      # None is a legal example value
     base = lazy_dataset.new(list(range(n))).map(f)
     holders = {}
+    its = {}          # iterators in flight: id -> (wrapper, iterator)
     out = sys.stdout
     for line in sys.stdin:
         op = json.loads(line)
@@ -37,10 +38,17 @@ def main():
                 del ds
             elif k == 'get':
                 rep = {'val': holders[op['w']][0][op['i']]}
+            elif k == 'next':
+                # the same access made by a plain iteration in flight (position op['i'])
+                if op['it'] not in its:
+                    its[op['it']] = (op['w'], iter(holders[op['w']][0]))
+                rep = {'val': next(its[op['it']][1])}
             elif k == 'copy':
                 holders[op['w']].append(holders[op['w']][0].copy())
                 rep = 'ok'
             elif k == 'release':
+                for i in [i for i, (w, _) in its.items() if w == op['w']]:
+                    its.pop(i)[1].close()
                 holders[op['w']].pop()
                 if not holders[op['w']]:
                     del holders[op['w']]
